@@ -6,9 +6,12 @@ import (
 	"flag"
 	"fmt"
 	"os"
+	"os/exec"
 	"path/filepath"
+	"sort"
 	"strconv"
 	"strings"
+	"sync"
 
 	"p2pverif/core"
 	"p2pverif/rules"
@@ -109,6 +112,9 @@ func main() {
 		}()
 		rule(r)
 	}()
+	if *mutantFile == "" && *tier == "thorough" {
+		selfValidate(r, *repo, *verif, *goarch)
+	}
 	if *mutantFile != "" {
 		fired := false
 		for _, o := range r.Obls {
@@ -131,4 +137,69 @@ func main() {
 		r.Fail("cannot read known_findings.json: %v", err)
 	}
 	os.Exit(r.Finish(*verif, findings, false))
+}
+
+// selfValidate runs the property's mutant catalogue: each mutant is overlaid
+// on the current tree in a child process (no scratch copy on disk), must still
+// type-check, and the named rule must fire.
+func selfValidate(r *core.Report, repo, verif, goarch string) {
+	files, _ := filepath.Glob(filepath.Join(verif, "mutants", r.Property+"-*.json"))
+	sort.Strings(files)
+	self, err := os.Executable()
+	if err != nil {
+		r.Fail("self-validation: %v", err)
+		return
+	}
+	type res struct {
+		ID, Outcome, Detail string
+	}
+	results := make([]res, len(files))
+	sem := make(chan struct{}, 4)
+	var wg sync.WaitGroup
+	for i, f := range files {
+		wg.Add(1)
+		go func(i int, f string) {
+			defer wg.Done()
+			sem <- struct{}{}
+			defer func() { <-sem }()
+			cmd := exec.Command(self, "-mutant", f, "-repo", repo, "-verif", verif, "-goarch", goarch)
+			out, _ := cmd.CombinedOutput()
+			code := cmd.ProcessState.ExitCode()
+			id := strings.TrimSuffix(filepath.Base(f), ".json")
+			lines := strings.Split(strings.TrimSpace(string(out)), "\n")
+			first := ""
+			for _, l := range lines {
+				if strings.HasPrefix(l, "MUTANT-") {
+					first = l
+					break
+				}
+			}
+			if first == "" && len(lines) > 0 {
+				first = lines[len(lines)-1]
+			}
+			oc := map[int]string{0: "fired", 4: "skipped", 5: "nocompile", 6: "silent"}[code]
+			if oc == "" {
+				oc = fmt.Sprintf("error(%d)", code)
+			}
+			results[i] = res{id, oc, first}
+		}(i, f)
+	}
+	wg.Wait()
+	fired, skipped := 0, 0
+	var sample []any
+	for _, x := range results {
+		switch x.Outcome {
+		case "fired":
+			fired++
+		case "skipped", "nocompile":
+			skipped++
+		default:
+			r.Fail("self-validation: mutant %s not detected (%s): %s", x.ID, x.Outcome, x.Detail)
+		}
+		sample = append(sample, map[string]string{"mutant": x.ID, "outcome": x.Outcome, "detail": x.Detail})
+	}
+	if len(files) > 0 && skipped*2 > len(files) {
+		r.Fail("self-validation: %d of %d mutants no longer apply to the tree", skipped, len(files))
+	}
+	r.Extra["selftest"] = map[string]any{"mutants": len(files), "fired": fired, "skipped": skipped, "results": sample}
 }
